@@ -210,88 +210,22 @@ def ref_sanitize(name: str) -> str:
     return r or "unnamed_field"
 
 
-PRIORITY = (("CONST",), ("ENUM",), ("REGEX",), ("TYPE",), ("DATE", "ISO8601"))
+def ref_rule_names(field_names):
+    """rule names compile_schema is documented to assign: the sanitised name, made unique against the earlier
+    fields and the five structural names by the suffixes -2, -3, ..."""
+    used = []
+    for n in field_names:
+        base = ref_sanitize(n)
+        cur, k = base, 2
+        while cur in used or cur in STRUCTURAL:
+            cur = f"{base}-{k}"
+            k += 1
+        used.append(cur)
+    return used
 
 
-def ref_deciding(chain_enc):
-    """chain_enc: list of encoded constraints (enc_chain).  The member whose fragment is used."""
-    if not chain_enc:
-        return None
-    for ks in PRIORITY:
-        for c in chain_enc:
-            if c["k"] in ks:
-                return c
-    return chain_enc[0]
-
-
-UNSUPPORTED = ("(?", "\\b", "\\B", "\\d", "\\w", "\\s", "\\D", "\\W", "\\S")
-
-
-def ref_regex_path(pattern: str) -> str:
-    """which branch of the documented regex translation a pattern takes:
-    degrade | class-clean | class-escape | degenerate | paste"""
-    p = pattern.lstrip("^").rstrip("$")
-    if any(u in p for u in UNSUPPORTED):
-        return "degrade"
-    core = p[:-1] if p.endswith("\n") else p
-    if core.startswith("["):
-        close = core.find("]", 1)
-        if close > 1 and core[close + 1:] in ("", "+", "*", "?"):
-            body = core[1:close]
-            return "class-escape" if ("\\" in body or body == "^") else "class-clean"
-    r = p.replace(".", "[^\\n]")
-    if r in ("", "+", "*", "?"):
-        return "degenerate"
-    return "paste"
-
-
-# ---- class predicates (input based).  `fields` = [(name, chain_enc | None)] ----------------------
-
-def kf_structural_name(name, fields, envelope):
-    """F20: a field whose sanitised name equals a structural rule name."""
-    return any(ref_sanitize(n) in STRUCTURAL for n, _ in fields)
-
-
-def kf_sanitise_collision(name, fields, envelope):
-    """F21: two distinct field names with the same sanitised rule name."""
-    seen = {}
-    for n, _ in fields:
-        r = ref_sanitize(n)
-        if r in seen and seen[r] != n:
-            return True
-        seen.setdefault(r, n)
-    return False
-
-
-def kf_regex_passthrough(name, fields, envelope):
-    """F22: a field decided by a REGEX whose pattern text is pasted (or whose class body keeps a
-    backslash) instead of being translated."""
-    for _, ch in fields:
-        d = ref_deciding(ch)
-        if d is not None and d["k"] == "REGEX" and ref_regex_path(d["p"]) in ("paste", "class-escape"):
-            return True
-    return False
-
+# ---- class predicate of the one open C12 finding (input based).  `fields` = [(name, chain_enc | None)] ----
 
 def kf_underscore_rule_name(name, fields, envelope):
     """F23: a sanitised field rule name contains '_' (not a llama.cpp name character)."""
     return any("_" in ref_sanitize(n) for n, _ in fields)
-
-
-def kf_field_name_unescaped(name, fields, envelope):
-    """C12N1: a field name containing '"' or a backslash is pasted unescaped into the rule's literal."""
-    return any(('"' in n or "\\" in n) for n, _ in fields)
-
-
-def kf_schema_name_unescaped(name, fields, envelope):
-    """C12N2: the schema name is pasted unescaped into the '#' header comment (line break) and into
-    the envelope-start literal (quote / backslash)."""
-    return ("\n" in name or "\r" in name) or (envelope and ('"' in name.upper() or "\\" in name.upper()))
-
-
-def predicted_duplicates(fields):
-    """rule names the recorded findings F20/F21 predict to be defined twice."""
-    names = [ref_sanitize(n) for n, _ in fields]
-    dup = {r for r in names if names.count(r) > 1}
-    dup |= {r for r in names if r in STRUCTURAL}
-    return dup
